@@ -17,9 +17,65 @@ class Program:
         self.ix = Index(root, overrides)
         self._cfgs: Dict[str, CFG] = {}
         self.stats = {"calls": 0, "resolved": 0, "by_name": 0, "external": 0, "unresolved": 0}
+        self._inline_string_constants()
         self._normalise_call_keywords()
 
     # ---------------------------------------------------------------- normalisation
+    def _inline_string_constants(self) -> None:
+        """`lib[SOME_KEY]` with `SOME_KEY = "public.x"` at module level (here or in another module of the package) is
+        `lib["public.x"]`: loads of such names inside functions are replaced by the string they stand for, so that
+        hoisting a literal into a named constant (or inlining one) can never change a verdict or the key of a finding.
+        Only names bound exactly once, at module level, to a string literal qualify; third-party constants stay names."""
+        ix = self.ix
+        table: Dict[Tuple[str, str], str] = {}
+        for mi in ix.modules.values():
+            counts: Dict[str, int] = {}
+            for n in ast.walk(mi.tree):
+                if isinstance(n, ast.Name) and isinstance(n.ctx, (ast.Store, ast.Del)):
+                    counts[n.id] = counts.get(n.id, 0) + 1
+                elif isinstance(n, (ast.Global, ast.Nonlocal)):
+                    for nm in n.names:
+                        counts[nm] = 99
+            for nm, v in mi.constants.items():
+                if isinstance(v, ast.Constant) and isinstance(v.value, str) and counts.get(nm) == 1:
+                    table[(mi.name, nm)] = v.value
+        for fi in list(ix.functions.values()):
+            if isinstance(fi.node, ast.Lambda):
+                continue
+            mi = fi.module
+            local = {a.arg for a in fi.node.args.posonlyargs + fi.node.args.args + fi.node.args.kwonlyargs}
+            local |= {n.id for n in ast.walk(fi.node) if isinstance(n, ast.Name) and isinstance(n.ctx, (ast.Store, ast.Del))}
+            for n in list(A.body_nodes(fi.node)):
+                if not (isinstance(n, ast.Name) and isinstance(n.ctx, ast.Load)) or n.id in local:
+                    continue
+                val = table.get((mi.name, n.id))
+                if val is None and n.id in mi.imports:
+                    dotted = mi.imports[n.id]
+                    if "." in dotted:
+                        mod, nm = dotted.rsplit(".", 1)
+                        val = table.get((mod, nm))
+                if val is None:
+                    continue
+                par = ix.parent(n)
+                if par is None:
+                    continue
+                new = ast.Constant(value=val)
+                ast.copy_location(new, n)
+                new.end_lineno, new.end_col_offset = getattr(n, "end_lineno", None), getattr(n, "end_col_offset", None)
+                new.const_name = n.id
+                done = False
+                for fld, old in ast.iter_fields(par):
+                    if old is n:
+                        setattr(par, fld, new)
+                        done = True
+                    elif isinstance(old, list):
+                        for i, x in enumerate(old):
+                            if x is n:
+                                old[i] = new
+                                done = True
+                if done:
+                    ix._parents[id(new)] = par
+
     def _normalise_call_keywords(self) -> None:
         """f(a, y=b) and f(a, b) are the same call when y is f's second parameter.  For calls whose callee resolves
         inside the package (plain function, self / super method, class with an explicit __init__), keyword arguments
@@ -203,6 +259,12 @@ class Program:
         mi = fi.module
         cls = self._class_ctx(fi)
         e = func_expr
+        if isinstance(e, ast.Name) and e.id == "cls" and cls is not None and not isinstance(fi.node, ast.Lambda) and fi.node.args.args and fi.node.args.args[0].arg == "cls" \
+                and any(_dec(d) == "classmethod" for d in fi.node.decorator_list) and all(d.kind == "param" for d in self.reaching(fi, e.id, e)):
+            # cls(...) inside a classmethod constructs the class itself (or a subclass)
+            subs = [c_ for c_ in ix.subclasses(cls.qname)] if hasattr(ix, "subclasses") else []
+            ts = [cls] + [c_ for c_ in subs if c_ is not cls]
+            return ts, "exact" if len(ts) == 1 else "cha"
         if isinstance(e, ast.Name):
             # nested def or local alias first
             defs = self.reaching(fi, e.id, e) if not isinstance(fi.node, ast.Lambda) or True else []
